@@ -51,9 +51,8 @@ def _is_not_none_test(t: ast.expr) -> str | None:
     return None
 
 
-def run(ctx: Ctx) -> None:
+def rule_scheduler(ctx: Ctx) -> None:
     p = ctx.prog
-    ctx.assumptions -= {'A6'}
     names, ints = _hp_names(ctx)
     if len(names) < 6:
         raise AnalysisError(f'only {len(names)} callable-or-constant hyper-parameter properties found in BaseKFACPreconditioner')
@@ -64,7 +63,6 @@ def run(ctx: Ctx) -> None:
     ctx.rule('AFF-SCHED', 'new value = old value * factor, int(...) exactly for the int-typed (interval) parameters', floor=6)
     ctx.rule('STEP-PREC', 'the factor function is evaluated at `step if step is not None else preconditioner.steps`', floor=6)
     ctx.rule('SIB-REFUSE', 'the constructor refuses a *_lambda for a parameter that is already callable', floor=6)
-    ctx.rule('AFF-EXPDECAY', 'exp_decay_factor_averaging(cap)(k) = min(1 - 1/max(k,1), cap); k < 0 and cap <= 0 raise', floor=4)
 
     # every scheduled name is a hyper-parameter
     for lp in lam_params:
@@ -202,7 +200,11 @@ def run(ctx: Ctx) -> None:
         if n + '_lambda' not in lam_params:
             ctx.violate('SIB-SCHED', step, n, f'step() has a block for {n} without a constructor parameter', blocks[n])
 
-    # exp decay
+
+
+def rule_expdecay(ctx: Ctx) -> None:
+    p = ctx.prog
+    ctx.rule('AFF-EXPDECAY', 'exp_decay_factor_averaging(cap)(k) = min(1 - 1/max(k,1), cap); k < 0 and cap <= 0 raise', floor=4)
     ed = p.get_func('hyperparams.exp_decay_factor_averaging')
     inner = [f for f in p.funcs.values() if f.parent is ed]
     if len(inner) != 1:
@@ -239,6 +241,12 @@ def run(ctx: Ctx) -> None:
             txt = cb.value(s, r.value).canon()
             ctx.check(txt == want, 'AFF-EXPDECAY', g, f'case {case}: returns {want}', f'{case}: {norm(r)}',
                       f'for {case} the schedule returns {txt}; specified: min(1 - 1/max(k,1), {capname}) = {want}', r)
+
+
+def run(ctx: Ctx) -> None:
+    ctx.assumptions -= {'A6'}
+    ctx.do(rule_scheduler)
+    ctx.do(rule_expdecay)
 
 
 def _cmp_is(t: ast.expr, name: str, op: str, const: int) -> bool:
